@@ -44,6 +44,8 @@ def generate(rng, tier):
             rules, root = token_seq(rng)
         else:
             rules, root = G.rand_grammar(rng, G.FULL if i % 3 == 1 else G.MONO)
+            if engcommon.k1_shape(rules, root):
+                continue
             if rng.random() < 0.3:
                 cnt = [0]
                 rules = [G.name_alternatives(r, cnt) for r in rules]
@@ -54,6 +56,8 @@ def generate(rng, tier):
     for i in range(n // 2):
         # every third: the JSON-shaped / arithmetic-shaped workload grammars in miniature
         rules, root = G.rand_lit_grammar(rng) if i % 3 else (G.json_like(rng) if i % 2 else G.arith_like(rng))
+        if engcommon.k1_shape(rules, root):
+            continue        # known finding K1 (C07): outside the value-level model
         for _ in range(2):
             out.append((G.case_text(rules, root, G.rand_lit_input_for(rng, rules, root), offset=rng.choice([2, 3, 7, 17, 60]), flags=0),
                         {"stream": "literals"}))
